@@ -23,6 +23,7 @@ type varKey struct {
 type loopCtx struct {
 	brk, cont *Node
 	label     string // the label of the statement, if it has one
+	loopID    int    // identity of a range loop (0 for other loops and for switch/select)
 }
 
 type Builder struct {
@@ -334,10 +335,12 @@ func (b *Builder) stmt(s ast.Stmt) {
 	case *ast.BranchStmt:
 		if s.Label != nil {
 			var tgt *Node
+			brkLoop := 0
 			for i := len(b.loops) - 1; i >= 0; i-- {
 				if b.loops[i].label == s.Label.Name {
 					if s.Tok == token.BREAK {
 						tgt = b.loops[i].brk
+						brkLoop = b.loops[i].loopID
 					} else if s.Tok == token.CONTINUE {
 						tgt = b.loops[i].cont
 					}
@@ -351,6 +354,7 @@ func (b *Builder) stmt(s ast.Stmt) {
 			}
 			n := b.newNode(NNop, s.Pos())
 			n.Note = "break"
+			n.LoopID = brkLoop // which range loop the break leaves (0: another kind of statement)
 			if s.Tok == token.CONTINUE {
 				n.Note = "continue"
 			}
@@ -366,6 +370,7 @@ func (b *Builder) stmt(s ast.Stmt) {
 			}
 			n := b.newNode(NNop, s.Pos())
 			n.Note = "break"
+			n.LoopID = b.loops[len(b.loops)-1].loopID
 			b.emit(n)
 			b.jump(b.loops[len(b.loops)-1].brk)
 		case token.CONTINUE:
@@ -907,7 +912,7 @@ func (b *Builder) rangeStmtX(s *ast.RangeStmt, x *Term) {
 	b.emit(h1)
 	h1.Succ = []*Node{body, done}
 	h2.Succ = []*Node{body, done}
-	b.loops = append(b.loops, loopCtx{brk: done, cont: h2, label: b.takeLabel()})
+	b.loops = append(b.loops, loopCtx{brk: done, cont: h2, label: b.takeLabel(), loopID: b.loopSeq})
 	b.start(body)
 	b.stmt(s.Body)
 	b.jump(h2)
